@@ -69,6 +69,7 @@ TRANSLATORS = [
     ('translate_esc.py', 'EscTables', 'esc', 'Proofs/EscSrc.v'),
     ('translate_strscan.py', 'StrScanTables', 'strscan', 'Proofs/StrScanSrc.v'),
     ('translate_lexalg.py', 'LexAlgTables', 'lexalg', 'Proofs/LexAlgSrc.v'),
+    ('translate_stream.py', 'StreamTables', 'stream', 'Proofs/StreamSrc.v'),
 ]
 TRANSLATORS = [t for t in TRANSLATORS if os.path.exists(os.path.join(VERIF, 'tools', t[0]))]
 
@@ -352,7 +353,7 @@ LEX_PROPS = ('C07', 'C04', 'C16', 'C01', 'C02')
 INDEPENDENT = ('C17', 'C18')          # Map / pointer / macro developments use none of the tables of tools/translate.py
 PARSER_PROPS = ('C01', 'C02', 'C09', 'C10', 'C11', 'C12', 'C13', 'C14', 'C19')
 TAG_PROPS = {'fmt': SER_PROPS, 'keys': SER_PROPS, 'ser': SER_PROPS, 'vser': ('C15', 'C03'), 'num': ('C06', 'C18', 'C20'), 'eq': ('C18',), 'ptr': ('C18',), 'vacc': ('C18',), 'map': ('C17',),
-             'scan': ('C20', 'C06') + PARSER_PROPS, 'cursor': PARSER_PROPS, 'ignore': PARSER_PROPS, 'read': PARSER_PROPS, 'strscan': PARSER_PROPS + ('C05',), 'esc': SER_PROPS, 'lexalg': ('C07', 'C04', 'C02'), 'de': PARSER_PROPS + ('C04', 'C06', 'C16'),
+             'scan': ('C20', 'C06') + PARSER_PROPS, 'cursor': PARSER_PROPS, 'ignore': PARSER_PROPS, 'read': PARSER_PROPS, 'strscan': PARSER_PROPS + ('C05',), 'esc': SER_PROPS, 'lexalg': ('C07', 'C04', 'C02'), 'stream': ('C12', 'C13', 'C14'), 'numfr': ('C07', 'C02', 'C01', 'C04', 'C12', 'C14'), 'access': PARSER_PROPS + ('C06', 'C16', 'C04'), 'err': ('C09', 'C10', 'C11', 'C13', 'C14'), 'de': PARSER_PROPS + ('C04', 'C06', 'C16'),
              'numparse': PARSER_PROPS + ('C06', 'C08'), 'str': PARSER_PROPS + ('C05',), 'vde': ('C16', 'C06')}
 
 def tie_relevant(pid, broken_line):
